@@ -20,7 +20,7 @@ from simkit.rng import seed_globals  # noqa: E402
 from simkit.world import result, run_sim  # noqa: E402
 
 PROPERTY = "C16"
-RUNS = {"quick": 8_000, "thorough": 1_000_000}
+RUNS = {"quick": 8_000, "thorough": 6_000_000}
 WALL = {"quick": 55, "thorough": 1500}
 BATCH = {"quick": 100, "thorough": 1000}
 SELFTEST_RUNS = 30
